@@ -287,6 +287,25 @@ def run_interleaved(ctx):
                          'alternately with other messages\' generators' % (bad, [sources[i] for i in bad], M), case)
 
 
+def scale_case(M, n_frags, source):
+    """One message of n_frags data fragments (a small maximum PDU length and a data set of ordinary size)."""
+    L = n_frags * (M - 6) - 3
+    spec = {'cf': 0x0001, 'fields': default_fields(0x0001), 'data': dg.patterned(L, 9)}
+    try:
+        check_case(spec, M, 5, sources=(source,), vias=('send',) if source == 'bytes' else ('encode',))
+    except Violation as v:
+        raise Violation(v.key, v.what + ' [message of %d data fragments, %d bytes]' % (n_frags, L),
+                        {'scale': True, 'M': M, 'frags': n_frags, 'source': source})
+
+
+def run_scale(ctx, job):
+    warnings.simplefilter('ignore')
+    M, n_frags, source = job['M'], job['frags'], job['source']
+    ctx.case(('scale', M, n_frags, source), True, labels=['many-fragments', 'frags>=%d' % (n_frags // 10000 * 10000)],
+             sample={'max_pdu': M, 'fragments': n_frags, 'source': source})
+    ctx.check(scale_case, M, n_frags, source)
+
+
 def run_random(ctx, n):
     Ms = st.one_of(st.integers(7, 300), st.sampled_from([7, 8, 9, 64, 128, 1024, 16384, 65536, 2 ** 31, 2 ** 32 - 1]))
     strat = st.tuples(dg.message(max_data=900), Ms, st.integers(1, 255))
@@ -316,13 +335,20 @@ def run(ctx):
     ctx.rule = ('grid: every maximum PDU length M in the range x every data length within +-2 of k*(M-6), '
                 'k=0..4, plus 1 (message class and context id rotated), each through bytes / BytesIO / real '
                 'file / real file positioned behind a header / gzip file object and through DIMSEMessage.encode and Association.send; 2^k boundaries up to 2^32-1; file sources with data sets ending around 64 KiB / 1 MiB block boundaries and fragment sizes above 1 MiB; all '
-                '23 classes; Hypothesis-random messages; several generators consumed alternately; non-trivial = >=2 data fragments or data length '
+                '23 classes; Hypothesis-random messages; several generators consumed alternately; messages of 33000-70000 (thorough: 300000) fragments; non-trivial = >=2 data fragments or data length '
                 'within +-2 of a multiple of the fragment size; distinct by (part, class, M, L)')
     ctx.assumptions = ['several PDVs per PDU would be accepted', 'M < 7 outside the stated domain',
                        'command bytes compared with dsutils.encode(command_set) and parsed by vf/refcmd.py']
     hi = 600 if ctx.thorough else 70
     bands = [(lo, min(lo + 14, hi)) for lo in range(7, hi + 1, 15)]
     parallel(ctx, run_grid, [{'m_lo': a, 'm_hi': b} for a, b in bands])
+    # messages of tens of thousands of fragments (counters of 16 bits, recursion, quadratic buffers)
+    scale = [{'M': 16, 'frags': 66001, 'source': 'bytes'}, {'M': 9, 'frags': 70000, 'source': 'file'},
+             {'M': 7, 'frags': 33000, 'source': 'bytesio'}]
+    if ctx.thorough:
+        scale += [{'M': 16, 'frags': 140000, 'source': 'bytes'}, {'M': 70, 'frags': 66000, 'source': 'bytesio-offset'},
+                  {'M': 8, 'frags': 300000, 'source': 'file'}]
+    parallel(ctx, run_scale, scale)
     run_all_classes(ctx)
     run_boundaries(ctx)
     run_block_boundaries(ctx)
@@ -335,6 +361,9 @@ def run(ctx):
 
 def replay(case):
     warnings.simplefilter('ignore')
+    if case.get('scale'):
+        scale_case(case['M'], case['frags'], case['source'])
+        return
     if case.get('interleaved'):
         from ..common import Ctx
         sub = Ctx('C06', 'quick', 1)
